@@ -74,6 +74,10 @@ where
     mac: Mac,
     radio_buffer: RadioBuffer<N>,
     downlink: Vec<Downlink, D>,
+    /// Set when the MAC has already closed the uplink procedure in progress (a frame received in
+    /// RX1 or RX2 ended it), with whether that outcome was the expiry of the session: an error
+    /// after that point must not account for the uplink a second time.
+    procedure_closed: Option<bool>,
     #[cfg(feature = "class-c")]
     class_c: bool,
 }
@@ -200,6 +204,7 @@ where
             radio_buffer: RadioBuffer::new(),
             timer,
             downlink: Vec::new(),
+            procedure_closed: None,
             #[cfg(feature = "class-c")]
             class_c: false,
         }
@@ -383,6 +388,7 @@ where
             &mut self.radio_buffer,
             &SendData { data, fport, confirmed },
         )?;
+        self.procedure_closed = None;
         // Transmit our data packet
         let ms = match self.radio.tx(tx_config, self.radio_buffer.as_ref_for_read()).await {
             Ok(ms) => ms,
@@ -404,6 +410,11 @@ where
         &mut self,
         error: Error<R::PhyError>,
     ) -> Result<SendResponse, Error<R::PhyError>> {
+        if let Some(expired) = self.procedure_closed {
+            // A received frame has already ended the procedure: FCntUp and the ADR counter are
+            // accounted for, only the radio could not be put back to rest.
+            return if expired { Ok(SendResponse::SessionExpired) } else { Err(error) };
+        }
         match self.mac.rx2_complete() {
             mac::Response::SessionExpired => Ok(SendResponse::SessionExpired),
             _ => Err(error),
@@ -678,6 +689,8 @@ where
                 }
                 RxStatus::RxTimeout => None,
             };
+        self.procedure_closed =
+            response.as_ref().map(|r| matches!(r, mac::Response::SessionExpired));
         self.window_complete().await?;
         Ok(response)
     }
